@@ -26,6 +26,9 @@ logged (class-level wrappers installed from this process) and replayed as the sc
 active_modes and the registries (canonical dump of events.registered_handlers, switch_controller.registered_switches,
 every DelayManager.delays; mode footprints calibrated once per configuration) are compared at every quiescent point.
 Oracle (model independent): the three clauses of the property on the real machine.
+API requests with a callback (Mode.start(callback=cb) / Mode.stop(callback=cb), a fresh recording callback per request): the
+callback of an accepted request is called exactly once, for the request it was given to, never again in a later cycle; that of
+a request that was turned down never (callback_oracle; not part of the Lean model).
 """
 import re
 
@@ -38,7 +41,7 @@ LEAN_MODULES = ["MpfVerif.Props.C07"]
 PROPS_FILE = "MpfVerif/Props/C07.lean"
 GEN = []
 MANIFEST = {
-  "text": "Proof on a Lean model of Mode.start/_started/_mode_started_callback/stop/_stopped/_mode_stopped_callback, ModeController.set_mode_state and five registries (event handlers incl. the one-shot handler ModeController._player_turn_ended registers on mode_<n>_started for a game mode still starting at turn end; switch handlers; delays incl. pending delayed control-event calls of mode devices; what config players record under the mode's context - light stack entries, show instances, enabled coils; delays and periodic tasks owned by mode devices - timer ticks and pauses, logic-block timeouts, sequence-shot timeouts, shot delay switches, ball-save timers; every entry tagged with its owning mode and the mechanism that removes it) with every scheduler choice (which pending callback runs next, what user code registers when, when an entry of a config player is called - also from the snapshot of a queue event's handler list taken before the mode stopped -, when a conditional entry is re-evaluated, when a device schedules, cancels or fires a timer) an input: for ALL op sequences the lifecycle events posted for a mode form a prefix of (will_start starting started will_stop stopping stopped)*, active_modes is duplicate-free, contains exactly the modes whose active flag is set and is strictly sorted by (priority, name) descending, and whenever a mode's stop completes (its cleanup runs, in _mode_stopped_callback or at the beginning of a restart requested from a mode_<n>_stopped handler) no entry of the stopped run owned by it is left in any of the five registries (a restarted mode owns exactly its fresh footprint and the late callback of the previous stop touches nothing) while entries of other modes are untouched, hence any number of complete cycles restores the registries; a config-player entry called for a mode that is not active changes nothing and nothing is recorded under the context of a mode that is neither starting nor active (config_player_effects_die_with_mode); a device timer exists only while its mode's devices are loaded and none is left after the cleanup (device_timers_die_with_mode); accepted starts/stops become pending steps that are enabled; a start request that the guards turn down (outside a game, already active - incl. stopping -, already starting) changes nothing, whatever priority it carries, and a mode's priority changes only at an accepted start and at _stopped (refused_start_changes_nothing, refused_start_while_stopping, priority_changes_only_at_accepted_start_or_stopped), so active_modes - re-sorted only on active/inactive transitions - stays ordered; an accepted stop cancels the mode's delays and switch handlers at once, none of them can fire while the stopping queue is held (accepted_stop_cancels_delays); a device control event handler (direct or delayed form) called for a mode that is neither starting nor active - from a queue event's snapshot - does nothing (stale_control_event_has_no_effect). The model is tied to mpf/core/mode.py, mode_controller.py, config_player.py (config_play_callback, subscriptions, mode_stop/clear_context) and the device-owned DelayManagers on every check: generated mode sets run on a real machine, the observed call schedule is replayed on the Lean driver (not-enabled = disagreement; played/skipped of every config_play_callback compared), posted events, flags, active_modes and canonical dumps of all five registries are compared at every quiescent point; an independent oracle checks the three clauses of the property on the real machine incl. light stacks and every config player's instances[context].",
+  "text": "Proof on a Lean model of Mode.start/_started/_mode_started_callback/stop/_stopped/_mode_stopped_callback, ModeController.set_mode_state and five registries (event handlers incl. the one-shot handler ModeController._player_turn_ended registers on mode_<n>_started for a game mode still starting at turn end; switch handlers; delays incl. pending delayed control-event calls of mode devices; what config players record under the mode's context - light stack entries, show instances, enabled coils; delays and periodic tasks owned by mode devices - timer ticks and pauses, logic-block timeouts, sequence-shot timeouts, shot delay switches, ball-save timers; every entry tagged with its owning mode and the mechanism that removes it) with every scheduler choice (which pending callback runs next, what user code registers when, when an entry of a config player is called - also from the snapshot of a queue event's handler list taken before the mode stopped -, when a conditional entry is re-evaluated, when a device schedules, cancels or fires a timer) an input: for ALL op sequences the lifecycle events posted for a mode form a prefix of (will_start starting started will_stop stopping stopped)*, active_modes is duplicate-free, contains exactly the modes whose active flag is set and is strictly sorted by (priority, name) descending, and whenever a mode's stop completes (its cleanup runs, in _mode_stopped_callback or at the beginning of a restart requested from a mode_<n>_stopped handler) no entry of the stopped run owned by it is left in any of the five registries (a restarted mode owns exactly its fresh footprint and the late callback of the previous stop touches nothing) while entries of other modes are untouched, hence any number of complete cycles restores the registries; a config-player entry called for a mode that is not active changes nothing and nothing is recorded under the context of a mode that is neither starting nor active (config_player_effects_die_with_mode); a device timer exists only while its mode's devices are loaded and none is left after the cleanup (device_timers_die_with_mode); accepted starts/stops become pending steps that are enabled; a start request that the guards turn down (outside a game, already active - incl. stopping -, already starting) changes nothing, whatever priority it carries, and a mode's priority changes only at an accepted start and at _stopped (refused_start_changes_nothing, refused_start_while_stopping, priority_changes_only_at_accepted_start_or_stopped), so active_modes - re-sorted only on active/inactive transitions - stays ordered; an accepted stop cancels the mode's delays and switch handlers at once, none of them can fire while the stopping queue is held (accepted_stop_cancels_delays); a device control event handler (direct or delayed form) called for a mode that is neither starting nor active - from a queue event's snapshot - does nothing (stale_control_event_has_no_effect). The model is tied to mpf/core/mode.py, mode_controller.py, config_player.py (config_play_callback, subscriptions, mode_stop/clear_context) and the device-owned DelayManagers on every check: generated mode sets run on a real machine, the observed call schedule is replayed on the Lean driver (not-enabled = disagreement; played/skipped of every config_play_callback compared), posted events, flags, active_modes and canonical dumps of all five registries are compared at every quiescent point; an independent oracle checks the three clauses of the property on the real machine incl. light stacks and every config player's instances[context]. Oracle only (the Lean model has no callbacks; the start / stop call itself goes through the model like any other): start and stop requests made through the API with a callback (Mode.start(callback=cb), Mode.stop(callback=cb), a fresh recording cb per request, mixed with event-driven and plain requests, from the top level and from lifecycle handlers, accepted and turned down) - the callback of an accepted request is called exactly once, for that request (start callback of the k-th accepted start: not before k mode_<n>_started events have been posted; stop callback: before the next start begins), never a second time on a later start or stop, and the callback of a request that was turned down is never called; after the case every mode that got a start with a callback is asked to start once more without one (a game mode follows only while the game is still running), so a callback still held by a stopped mode would be seen firing.",
   "note": "Trusted: Lean kernel + {propext, Classical.choice, Quot.sound}; the hand-written model Model/Mode.lean (validated only by the differential runs); the event bus (C01/C02) is not re-modelled: which callback runs when is an input. Mode footprints (which handlers a configuration registers in start / on started and which mechanism removes them) are calibrated on the real machine, not derived. Not claimed: a stop requested from a mode_<n>_started handler runs mode_stop before mode_start when mode_<n>_stopping has no handlers (custom mode code only). Decision on stale calls from a queue event's snapshot: the property speaks about the registries, so a handler of mode code (add_mode_event_handler) that is called after the mode removed it is counted (observation_stale_call_from_queue_snapshot), not failed on; what such a call LEAVES in a registry of a stopped mode (a delay, a device timer, an enabled device's handlers) or a crash is a failure - device control events registered by the mode did exactly that and were repaired (guard in Mode._direct_control_event_handler / _control_event_handler). NOT generated because still defective on the real code (reported): handlers a device registers by itself and that start timers - Timer control_events, SequenceShot event_sequence / delay_event_list - called from such a snapshot start a timer for a stopped mode. A delay or handler firing between the accepted stop and _stopped is outside the property's text ('once a mode has stopped'): counted (observation_fired_while_stopping) and, for delays that were pending at the stop, reported by the correspondence (the model cancels them in stop); values a player merely remembers per context (event_player keeps the last value of a conditional entry and never clears it) are counted, not failed on.",
   "technique": "Lean 4 theorems (invariants by induction over op sequences) on a hand model + schedule-replaying differential correspondence with real modes + independent oracle",
   "translated": False,
@@ -70,6 +73,11 @@ RULE = ("cases: 1-3 modes drawn from a pool (priorities with ties, game / non-ga
         "kwarg, priorities = those of the case's modes and 150/250 +-0/1/50, repeated 1-3 times while active, 1-2 times while "
         "starting (starting queue held) and while stopping (stopping queue held) or just stopped); in 30% of the cases 1-3 delays "
         "of a mode pending at its stop with the stopping queue held 4/8/12 ticks across their deadlines. "
+        "API requests with a callback: about half of the direct start / stop requests of a case (top level and in hooks) carry a "
+        "fresh recording callback (op forms [start, m, prio, cb] / [stop, m, cb]); in 60% of the cases a burst 'start with callback, "
+        "stop (plain / with callback / stop event), start again without a callback (start event / direct / queue event) or with "
+        "another one, stop with a callback once or twice'; after the settle phase one more start without a callback for every mode "
+        "that got a start with one. "
         "distinct = canonical JSON of the case")
 TRUSTED = [
     "modelled, not verified: the event bus and asyncio (the order in which posted events, queue-event tasks and callbacks "
@@ -888,6 +896,10 @@ class Real:
         self.ctl_calls = []   # Mode._control_event_handler / _direct_control_event_handler calls in progress
         self.stale_calls = {}  # what was called from a queue event's snapshot after it had been removed: kind -> count
         self.hkeys = {}       # uid of a handler of mode code -> its EventHandlerKey
+        self.n_ws = {n: 0 for n in self.names}        # mode_<n>_will_start posted so far = number of accepted starts (the cycle number)
+        self.later_cycles = 0
+        self.n_sd = {n: 0 for n in self.names}        # mode_<n>_started posted so far = number of starts that have become active
+        self.cbs = []         # start / stop requests made with a fresh recording callback (oracle: called once, for that request)
 
     # -- wrappers' callbacks ---------------------------------------------------------------------------------------
     def enter(self, name, mode, a, kw):
@@ -918,6 +930,10 @@ class Real:
 
     def posted(self, m, phase):
         self.L.append(("post", m, phase))
+        if phase == "will_start":
+            self.n_ws[m] += 1
+        elif phase == "started":
+            self.n_sd[m] += 1
         self.check_active_list("at " + phase)
 
     def check_active_list(self, where):
@@ -1074,13 +1090,27 @@ class Real:
             return      # user code of a mode that is not running registers nothing (assumption)
         if k == "start":
             self.L.append(("act", "start", a[1]))
+            kw = {}
             if len(a) > 2 and a[2] is not None:
-                modes[a[1]].start(mode_priority=a[2])
+                kw["mode_priority"] = a[2]
+            if len(a) > 3 and a[3] == "cb":
+                # Mode.start(callback=cb) with a fresh recording callback per request; accepted = it posted mode_<n>_will_start
+                rec = self.new_cb("start", a[1])
+                kw["callback"] = rec["fn"]
+                modes[a[1]].start(**kw)
+                rec["accepted"] = self.n_ws[a[1]] > rec["cycle_before"]
+                rec["cycle"] = self.n_ws[a[1]] if rec["accepted"] else None
             else:
-                modes[a[1]].start()
+                modes[a[1]].start(**kw)
         elif k == "stop":
             self.L.append(("act", "stop", a[1]))
-            modes[a[1]].stop()
+            if len(a) > 2 and a[2] == "cb":
+                # Mode.stop(callback=cb): accepted = it returned True (the mode is running, possibly stopping already)
+                rec = self.new_cb("stop", a[1])
+                rec["accepted"] = bool(modes[a[1]].stop(callback=rec["fn"]))
+                rec["cycle"] = rec["cycle_before"] if rec["accepted"] else None
+            else:
+                modes[a[1]].stop()
         elif k == "ev":
             if len(a) > 2 and isinstance(a[2], dict):      # e.g. the mode's start event with a mode_priority kwarg
                 self.machine.events.post(a[1], **a[2])
@@ -1154,6 +1184,19 @@ class Real:
         else:
             raise InfraError("bad act %r" % (a,))
 
+    def new_cb(self, kind, m):
+        rec = {"id": len(self.cbs), "kind": kind, "mode": m, "cycle_before": self.n_ws[m], "state_at_request": self.mode_state(m),
+               "accepted": None, "cycle": None, "calls": []}
+
+        def fn(*args, **kwargs):
+            # when was it called: in which cycle of the mode (number of accepted starts so far) and in which state
+            rec["calls"].append([self.n_sd[m] if kind == "start" else self.n_ws[m], self.mode_state(m)])
+            self.L.append(("cb", kind, m, rec["id"]))
+        fn.__qualname__ = "c07cb%d" % rec["id"]
+        rec["fn"] = fn
+        self.cbs.append(rec)
+        return rec
+
     def mode_state(self, m):
         md = self.machine.modes[m]
         return "active" if md.active and not md.stopping else ("stopping" if md.stopping else
@@ -1218,6 +1261,16 @@ class Real:
             self.vm.advance(GRID * 40)
             self.hooks_off = True
             self.quiescent()
+            for n in sorted(self.names):
+                # "a stopped mode holds no start callback of an earlier request that would fire later", observably: one more
+                # start without a callback (alternately by the start event and direct) after every request made with one
+                if any(c["kind"] == "start" and c["mode"] == n for c in self.cbs) and self.mode_state(n) == "idle":
+                    op = ["ev", "start_" + n] if len(self.cbs) % 2 else ["start", n]
+                    self.L.append(("top", op + ["later-cycle"]))
+                    self.later_cycles += 1
+                    self.act(op)
+                    self.vm.advance(GRID * 8)
+                    self.quiescent()
             for n in sorted(self.names):
                 md = self.machine.modes[n]
                 was = md.active and not md.stopping
@@ -1342,6 +1395,40 @@ def oracle0(case, real, crash):
                 extra = [x for x in extra if "c07" not in x.lower() and "queue" not in x.lower()]
                 if extra:
                     return "registry-leak:timers", {"left_behind": extra[:6]}
+    return callback_oracle(real)
+
+
+def callback_oracle(real):
+    """start / stop requests made through the API with a callback (every request got its own fresh recording callback; at the
+    end of the case every mode is stopped and settled, and every mode that got such a start request has been asked to start once
+    more without a callback - which a game mode does only while the game is still running).  The callback of an accepted request is called exactly once, for that request: with
+    k = the number of the accepted start (count of mode_<n>_will_start posted), a start callback is called once at least k
+    mode_<n>_started events have been posted (start k has become active; NOT 'before start k+1 is active': the callback of
+    the started event runs after everything its handlers caused, so with a stop from a started handler and a restart from a
+    stopped handler the callbacks of the nested starts run last-first, each once - found by the thorough tier, the stricter
+    clock demanded more than 'once, for its request'), a stop callback while exactly k will_start events have been posted
+    (before the next start begins); never a second time on a later start or stop.  The callback
+    of a request that was turned down (start: no will_start posted; stop: returned False) belongs to no transition and is
+    never called."""
+    def detail(c):
+        return {"mode": c["mode"], "request": c["id"], "kind": c["kind"], "mode_state_at_request": c["state_at_request"],
+                "accepted": c["accepted"], "cycle_of_request": c["cycle"], "calls_as_[cycle,state]": c["calls"][:6],
+                "times_called": len(c["calls"]), "cycles_of_the_mode": real.n_ws[c["mode"]]}
+    for c in real.cbs:
+        if c["kind"] == "start" and c["accepted"] and any(x[0] < c["cycle"] for x in c["calls"]):
+            return "start-callback-called-before-its-start-became-active", detail(c)
+    for c in real.cbs:
+        k = c["kind"]
+        if not c["accepted"]:
+            if c["calls"]:
+                return k + "-callback-of-refused-request-called", detail(c)
+            continue
+        if not c["calls"]:
+            return k + "-callback-not-called", detail(c)
+        if len(c["calls"]) != 1:
+            return k + "-callback-called-more-than-once", detail(c)
+        if k == "stop" and c["calls"][0][0] != c["cycle"]:
+            return k + "-callback-called-in-later-cycle", detail(c)
     return None
 
 
@@ -1536,7 +1623,37 @@ def gen_case(r):
     for o in ops:
         if o[0] in ("addh", "addhq", "addsw"):
             del o[2:]
+    callback_requests(r, names, chosen, hooks, ops)
     return {"kind": "modes", "game": game, "modes": chosen, "hooks": hooks, "ops": ops}
+
+
+def callback_requests(r, names, chosen, hooks, ops):
+    """API requests that carry a callback (Mode.start(callback=cb), Mode.stop(callback=cb), a fresh recording cb per request):
+    about half of the direct start / stop requests generated so far (top level and in hooks, so also while the mode is active,
+    starting, stopping - turned down - and from lifecycle handlers), and in 60% of the cases one burst 'start with a callback,
+    stop, start again WITHOUT one (start event / direct / queue event), stop with a callback (twice: the second while stopping
+    or stopped already)' mixed into the ops.  Drawn last: the rest of the case is what it was without them."""
+    for o in ops + [a for h in hooks for a in h["acts"]]:
+        if o[0] == "start" and r.random() < 0.5:
+            o[2:] = [o[2] if len(o) > 2 else None, "cb"]
+        elif o[0] == "stop" and r.random() < 0.5:
+            o[2:] = ["cb"]
+    if r.random() < 0.6:
+        m = r.choice(names)
+        burst = [["start", m, None, "cb"], ["adv", r.choice([1, 2, 4])]]
+        burst.append(r.choice([["stop", m], ["stop", m, "cb"], ["ev", "stop_" + m]]))
+        if r.random() < 0.7:
+            burst.append(["adv", r.choice([1, 2, 4])])
+        burst.append(r.choice([["ev", "start_" + m], ["start", m, None], ["qev", "start_" + m], ["start", m, None, "cb"]]))
+        burst.append(["adv", r.choice([1, 2, 4])])
+        burst.append(["stop", m, "cb"])
+        if r.random() < 0.5:
+            burst.append(["stop", m, "cb"])
+        burst.append(["adv", r.choice([1, 4])])
+        if r.random() < 0.5:
+            burst += [r.choice([["ev", "start_" + m], ["start", m, None]]), ["adv", r.choice([1, 2])]]
+        at = r.randint(0, len(ops))
+        ops[at:at] = burst
 
 
 def prio_burst(r, names, chosen, hooks, ops):
@@ -1866,6 +1983,11 @@ def one_case(ctx, model, case, sample=True):
                 ctx.count("cycles")
         ctx.count("delayed_control_call_fired", sum(1 for f in real.fired if f[0] == "ctl"))
         ctx.count("delayed_control_call_died_with_mode", sum(1 for e in real.L if e[0] == "ctl") - sum(1 for f in real.fired if f[0] == "ctl"))
+        for c in real.cbs:
+            ctx.count("%s_with_callback_%s" % (c["kind"], "accepted" if c["accepted"] else "refused"))
+            if c["kind"] == "start" and c["accepted"] and real.n_ws[c["mode"]] > c["cycle"]:
+                ctx.count("start_with_callback_followed_by_later_start")
+        ctx.count("later_cycle_added_after_callback_start", real.later_cycles)
         if case["game"] and cycles_done(real) == 0:
             ctx.count("vacuous_no_cycle")
         if real.cfg_after_stop:
@@ -2017,6 +2139,37 @@ def corpus():
               "hooks": [{"mode": "m1", "phase": "stopping", "prio": 1, "acts": [["wait", 5]]},
                         {"mode": "m1", "phase": "started", "prio": 5000, "acts": [["start", "m2"], ["stop", "m1"]]}],
               "ops": [["qev", "start_m1"], ["adv", 2], ["start", "m1", None], ["adv", 8], ["stop", "m2"]]})
+    # API requests with a callback: start with a callback, stop, started again by the start event and directly without one
+    # (seeded: the callback of the first request was kept and called again on every later start); a start with a callback that
+    # is turned down (already active); stop with a callback while active, again while stopping (held), and when stopped
+    c.append({"kind": "modes", "game": False, "modes": {"m1": [200, False, False, "plain"]}, "hooks": [],
+              "ops": [["start", "m1", None, "cb"], ["adv", 2], ["start", "m1", None, "cb"], ["stop", "m1"], ["adv", 2],
+                      ["ev", "start_m1"], ["adv", 2], ["ev", "stop_m1"], ["adv", 2], ["start", "m1", None], ["adv", 2],
+                      ["stop", "m1", "cb"], ["adv", 2]]})
+    c.append({"kind": "modes", "game": True, "modes": {"m1": [300, False, True, "dev"], "m2": [200, True, False, "gamey"]},
+              "hooks": [{"mode": "m1", "phase": "stopping", "prio": 1, "acts": [["wait", 5]]},
+                        {"mode": "m2", "phase": "started", "prio": 1, "acts": [["stop", "m2", "cb"]]}],
+              "ops": [["start", "m1", None, "cb"], ["start", "m2", None, "cb"], ["adv", 2], ["stop", "m1", "cb"], ["adv", 1],
+                      ["stop", "m1", "cb"], ["start", "m1", None, "cb"], ["adv", 8], ["stop", "m1", "cb"], ["qev", "start_m1"],
+                      ["adv", 2], ["ev", "start_m2"], ["adv", 2], ["ballend"], ["adv", 8]]})
+    # (found by this oracle, fixed on verif-C07-s3: the start callback is handed over in _started) the turn ends while a game
+    # mode is still starting, so the mode controller stops it from a mode_<n>_started handler; a mode_<n>_stopped handler starts
+    # it again with a callback - all of that runs before the callback of the first mode_<n>_started event, which then called the
+    # callback of the SECOND start (twice in the end, the first time while the mode was only starting)
+    c.append({"kind": "modes", "game": True, "modes": {"m2": [150, True, False, "gamecfgq"]},
+              "hooks": [{"mode": "m2", "phase": "stopped", "prio": 5000, "acts": [["start", "m2", None, "cb"], ["addh", "m2"]]},
+                        {"mode": "m2", "phase": "starting", "prio": 5000, "acts": [["wait", 9]]}],
+              "ops": [["ev", "start_m2"], ["ballend"]]})
+    c.append({"kind": "modes", "game": True, "modes": {"m2": [200, True, False, "plain"]},
+              "hooks": [{"mode": "m2", "phase": "stopped", "prio": 1, "acts": [["start", "m2", None, "cb"]]},
+                        {"mode": "m2", "phase": "starting", "prio": 1, "acts": [["wait", 9]]}],
+              "ops": [["start", "m2", None, "cb"], ["ballend"], ["adv", 16]]})
+    # the same without a game: stop from a started handler, restart with a callback from a stopped handler, twice nested; the
+    # callbacks of the nested starts run last-first, each exactly once (unfixed: the last one three times, the first never)
+    c.append({"kind": "modes", "game": False, "modes": {"m1": [200, False, True, "plain"]},
+              "hooks": [{"mode": "m1", "phase": "stopped", "prio": 1, "acts": [["start", "m1", None, "cb"]]},
+                        {"mode": "m1", "phase": "started", "prio": 1, "acts": [["stop", "m1"]]}],
+              "ops": [["ev", "start_m1"]]})
     return c
 
 
